@@ -1,6 +1,7 @@
 """C15 -- aa-log reports each record's own field values, faithfully decoded.
 
-Every record built from: 10 names x 4 comm values x 4 profile values (plain, blank, '=', '#', ',', UTF-8,
+Every record built from: 19 names x 7 comm values x 4 profile values, in each of the three carriers (audit, syslog,
+journald JSON), (plain, blank, '=', '#', ',', UTF-8,
 double quote, hex-looking plain text, key-like text), spelled the way the kernel spells them (quoted, or bare
 upper-case hex for untrusted strings), all 24 orders of the core fields for the plain values, all 32 subsets of
 five optional field groups; each also preceded by two malformed records (odd number of quotes, truncated);
@@ -16,10 +17,25 @@ PROP = 'C15'
 def run(tier):
     ev = C.Evidence(PROP, tier); fnd = C.Findings(PROP)
     bins = gox.build(os.path.join(C.scratch(), 'gox'), ['c14x'])
-    r = subprocess.run([bins['c14x'], '-mode', 'c15'], capture_output=True, text=True, env=dict(os.environ, TMPDIR=C.scratch()))
-    if r.returncode != 0:
-        raise SystemExit('HARNESS ERROR: c14x c15: ' + r.stderr[-1500:])
-    j = json.loads(r.stdout.strip().split('\n')[-1])
+    from concurrent.futures import ThreadPoolExecutor
+    S = 16
+
+    def shard(i):
+        r = subprocess.run([bins['c14x'], '-mode', 'c15', '-shard', str(i), '-of', str(S)], capture_output=True, text=True, env=dict(os.environ, TMPDIR=C.scratch()))
+        if r.returncode != 0:
+            raise SystemExit('HARNESS ERROR: c14x c15: ' + r.stderr[-1500:])
+        return json.loads(r.stdout.strip().split('\n')[-1])
+    with ThreadPoolExecutor(C.NPROC) as pool:
+        res = list(pool.map(shard, range(S)))
+    j = {'n': sum(x['n'] for x in res), 'violations': []}
+    seen = {}
+    for x in res:
+        for v in x['violations']:
+            if v['sig'] in seen:
+                seen[v['sig']]['count'] += v['count']
+            else:
+                seen[v['sig']] = v; j['violations'].append(v)
+    j['violations'].sort(key=lambda v: v['sig'])
     for v in j['violations']:
         fnd.report(v['sig'], '%s (x%d): %s' % (v['what'], v['count'], ' | '.join(v['input'])), {'record': v['input']})
     ev.add(states=j['n'], transitions=j['n'], traces_validated_against_impl=j['n'], records=j['n'])
